@@ -371,6 +371,9 @@ impl Compiler {
             self.compile_statement(stmt)?;
         }
         self.scopes[self.scope_index].scope_depth -= 1;
+        // the block's own bindings end here
+        let depth = self.scopes[self.scope_index].scope_depth;
+        self.symtab.leave_block(depth);
         Ok(())
     }
 
